@@ -14,6 +14,12 @@ Core Lean only.
 namespace LyModel.Valid
 open LyModel LyModel.Tree
 
+instance : LawfulBEq SKind where
+  eq_of_beq := by intro a b h; cases a <;> cases b <;> first | rfl | cases h
+  rfl := by intro a; cases a <;> rfl
+
+theorem skind_beq_eq_decide (a b : SKind) : (a == b) = decide (a = b) := by cases a <;> cases b <;> rfl
+
 /-- a schema node with its schema children -/
 inductive STree where
   | mk (sid : Nat) (info : SNode) (kids : List STree)
